@@ -24,7 +24,8 @@ def run(ck):
     repo = ck.repo
     ck.explanation = EXPL
     ck.technique = "rational normal forms, substitution, syntactic derivative; who-may-write scan"
-    ck.undecided("behaviour within 1e-12 of 0 and 1 in floating point (identities are over the reals)")
+    ck.undecided("behaviour within 1e-12 of 0 and 1 in floating point (identities are over the reals): a re-association that is exact "
+                 "over the reals but cancels in floats, e.g. first share = 1 - second share, is not reported (seeded_limits/C15-K)")
     cfg = Config(inline=lambda f: f.qualname in ("Composition.first", "Composition.second"),
                  str_domains={"self.type": ("molar", "weight")})
     C = repo.find_class("Composition")
